@@ -42,7 +42,6 @@ type Obs struct {
 	StallHeld  bool    `json:"stall_held"` // the call was still blocked a moment after the stall began
 	Steps      string  `json:"steps"`      // kinds of the steps started, e.g. "wrrww"
 	StepsDone  int     `json:"steps_done"`
-	OpKind     string  `json:"op_kind"` // kind of the step the scenario is about
 	Inconcl    string  `json:"inconclusive,omitempty"`
 	PeerErr    string  `json:"peer_err,omitempty"`
 	CtxErrText string  `json:"ctx_err,omitempty"`
@@ -209,7 +208,7 @@ func exec(e *env, sh *shape, s Scn, needClosed bool) (obs Obs) {
 			if ctx.Err() != nil || time.Now().After(deadline) {
 				fa = deadline
 			}
-			if s.Timing == "during_stall" && obs.StallSeen && !sa.Before(deadline.Add(-2*time.Millisecond)) {
+			if s.Timing == "during_stall" && (!obs.StallSeen || !sa.Before(deadline.Add(-2*time.Millisecond))) {
 				obs.Inconcl = "deadline passed before the stalled step was reached"
 			}
 			if s.Timing == "after_return" && returned && !retAt.Before(deadline.Add(-2*time.Millisecond)) {
@@ -269,25 +268,8 @@ func exec(e *env, sh *shape, s Scn, needClosed bool) (obs Obs) {
 	steps := conn.Steps()
 	obs.Steps = stepKinds(steps)
 	obs.StepsDone = conn.StepsDone()
-	switch {
-	case s.Timing == "during_stall" || (s.K > 0 && s.Timing == "never"):
-		if s.K <= len(steps) {
-			obs.OpKind = steps[s.K-1].Kind
-		}
-	case s.Timing == "between_steps":
-		if s.J+1 <= len(steps) {
-			obs.OpKind = steps[s.J].Kind // the step whose entry check ran
-		} else if s.J >= 1 && s.J <= len(steps) {
-			obs.OpKind = "after-" + steps[s.J-1].Kind
-		}
-	case s.J >= 1 && s.J <= len(steps):
-		obs.OpKind = steps[s.J-1].Kind
-	case len(steps) > 0:
-		obs.OpKind = steps[0].Kind
-	}
-
-	// release everything
-	in.conn.Teardown()
+	// release everything: cut the link, let both goroutines end, then clean up
+	in.closeLink()
 	pcancel()
 	if !returned {
 		select {
@@ -296,18 +278,13 @@ func exec(e *env, sh *shape, s Scn, needClosed bool) (obs Obs) {
 		}
 	}
 	if !peerDone {
-		// tear the link down first so that the peer's blocked I/O fails
-		done := make(chan struct{})
-		go func() { in.cleanup(); close(done) }()
 		select {
 		case peerErr = <-peerCh:
 		case <-time.After(3 * time.Second):
 			obs.Inconcl = joinNote(obs.Inconcl, "peer goroutine did not end")
 		}
-		<-done
-	} else {
-		in.cleanup()
 	}
+	in.cleanup()
 	if peerErr != nil {
 		obs.PeerErr = peerErr.Error()
 	}
@@ -361,7 +338,13 @@ func count(e *env, sh *shape, ctxKind, impl string) ([]wire.C19Step, Obs, error)
 	}
 	steps := in.conn.Steps()
 	closed := in.conn.Closed()
-	in.conn.Teardown()
+	in.closeLink()
+	if opErr != nil {
+		select {
+		case <-peerCh:
+		case <-time.After(3 * time.Second):
+		}
+	}
 	in.cleanup()
 	o := Obs{Returned: true, Steps: stepKinds(steps), Closed: closed}
 	if opErr != nil {
